@@ -311,6 +311,7 @@ def main(chk):
                       for r in p.note_array(include_pitch_spelling=True, include_staff=True))
     nexp = 60 if chk.tier == "quick" else 1200
     stats = {"kern": 0, "mei": 0}
+    wdocs, wctx = [], {}
     for k in range(nexp):
         fmt = "kern" if k % 2 == 0 else "mei"
         while True:
@@ -334,6 +335,16 @@ def main(chk):
                           op="export_" + fmt, tie_on_a_chord=bool(chord_tie or in_file), **attrs)
         try:
             (save_kern if fmt == "kern" else save_mei)(part, fn)
+            if fmt == "kern":
+                # the written file, read with an independent tokeniser, as a trace of the kern machine
+                d = gen_kern.parse_text(open(fn).read())
+                d["cid"] = k
+                unparsed = [n["unparsed"] for ln in d["lines"] if ln["kind"] == "data" for t in ln["toks"] for n in t["notes"] if "unparsed" in n]
+                if unparsed:
+                    report("written_file.token_not_readable", {"tokens": unparsed[:4]})
+                else:
+                    wdocs.append(d)
+                    wctx[k] = (t0, open(fn).read(), chord_tie)
             sc2 = partitura.load_score(fn)
             t1 = sorted(x for p in sc2.parts for x in table(p))
         except Exception as ex:
@@ -341,6 +352,30 @@ def main(chk):
             continue
         if t0 != t1:
             report("notes", {"missing": [x for x in t0 if x not in t1][:3], "unexpected": [x for x in t1 if x not in t0][:3], "n": [len(t0), len(t1)]})
+    if wdocs:
+        path = os.path.join(tlc.workdir("c19/written"), "cases.json")
+        with open(path, "w") as f:
+            json.dump(wdocs, f)
+        r = run_trace(("KernTrace", "c19/written", path))
+        chk.add_mc("KernTrace (files written by save_kern)", r)
+        if r.violated:
+            chk.violation("c2s", "export_kern.written_file.invariant:" + str(r.violated), {"trace": r.error_trace[:1200]}, op="export_kern")
+        got = {j["cid"]: j for j in uniq(r.json_lines())}
+        for k2, (t0, written, chord_tie) in sorted(wctx.items()):
+            chk.count(1, validated=1)
+            j = got.get(k2)
+            if j is None:
+                chk.violation("c2s", "export_kern.written_file.not_a_kern_document", {"case": k2}, replay={"file": written}, op="export_kern")
+                continue
+            staff_of = {a["spine"]: a["a"] for a in j["attrs"] if a["kind"] == "staff"}
+            den_t = sorted((round(float(fr(s["on"])), 5), round(float(fr(s["dur"])), 5), s["step"], s["alter"], s["octave"], staff_of.get(s["spine"], 1)) for s in j["sounding"])
+            if j["bad"] or not j["aligned"]:
+                chk.violation("c2s", "export_kern.written_file.rules", {"case": k2, "rules_broken": j["bad"], "aligned_at_the_end": j["aligned"]},
+                              replay={"file": written}, op="export_kern", rules=sorted(j["bad"]), tie_on_a_chord=bool(chord_tie))
+            elif den_t != t0:
+                chk.violation("c2s", "export_kern.written_file.denotes_the_part", {"case": k2, "missing": [x for x in t0 if x not in den_t][:3],
+                                                                                 "unexpected": [x for x in den_t if x not in t0][:3]},
+                              replay={"file": written}, op="export_kern", tie_on_a_chord=bool(chord_tie))
     chk.part("export_import", **stats)
     chk.assumptions += ["MEI: one part per staffDef, meter / key / clef on the staffDef as attributes or children, meter changes by scoreDef, layers filled completely",
                         "export/import: parts with one or two staves and voices whose written durations are single note values; MEI export without tuplets (the writer needs Tuplet objects)"]
